@@ -28,6 +28,13 @@ ENGINES += [
     {"name": "tla-builtins", "path": "spec/TwBuiltins.tla, spec/MC_Builtins.tla, harness/fam_render.go", "serves_properties": ["C11"],
      "kind_free_text": "TLA+ contracts of the built-in functions over character sequences, arrays, anchored ints and dyadic floats; TLC enumerates each built-in's small domain and checks lemmas; replayed through EvaluateString"},
 ]
+ENGINES += [
+    {"name": "tla-data", "path": "spec/MC_Data.tla, harness/fam_data.go", "serves_properties": ["C12"],
+     "kind_free_text": "TLA+ universe of Go values (GoVal) with the intended conversion Conv and access paths; the harness materialises each value with reflect and renders every path"},
+    {"name": "tla-link", "path": "spec/TwLink.tla, spec/TwLoader.tla, spec/MC_Link.tla, spec/MC_Tree.tla, spec/MC_Loader.tla, spec/MC_Det.tla, harness/fam_tree.go, harness/fam_det.go",
+     "serves_properties": ["C06", "C07", "C14", "C18"],
+     "kind_free_text": "TLA+ linker (layouts, components, slots) feeding machine E, and the loader state machine with nondeterministic file order (AllOrNothing, Deterministic model-checked); template trees are written to disk and loaded with NewTemplate after VerifReset"},
+]
 T_REPLAY = "explicit TLA+ specification checked by TLC; TLC-generated behaviours replayed into the real code"
 CLAIMED = {
     "C01": {"engine": "tla-expr", "technique": T_REPLAY,
@@ -38,6 +45,16 @@ CLAIMED = {
             "text": "TLC runs every loop program of the bounded families (each/for, jumps at every body position and under nested @if, nesting, @else bodies, non-array headers) on the evaluator model, checking LoopMeta / ScopeBalance / OutMonotone in every state, and the harness requires the same output from EvaluateString."},
     "C04": {"engine": "tla-eval", "technique": T_REPLAY,
             "text": "TLC runs assignment/read sequences placed around and inside every block skeleton with every data map of the family, checking TypeStable / LoopReserved / ScopeBalance in every state; reads print, so the visible environment is observable and the harness requires the model's output or error from EvaluateString."},
+    "C06": {"engine": "tla-link", "technique": T_REPLAY,
+            "text": "TLC links every page of the bounded families to its layout with spec/TwLink.tla (reserves filled by the page's inserts, block or expression form; undefined / duplicate insert, missing layout, layout-in-layout are errors) and runs the linked program on machine E; the harness writes the tree to disk, loads it with NewTemplate and requires the model's output from String(), or a load / render error that identifies the faulty file."},
+    "C07": {"engine": "tla-link", "technique": T_REPLAY,
+            "text": "TLC links every component use to ITS OWN copy of the component program with the caller's slot bodies substituted (spec/TwLink.tla LinkComp) and runs pages with 1..3 uses, uses inside loops / conditionals / slot bodies / inserts on machine E (arguments evaluated at the place of use, bound in a fresh scope); the harness requires the model's output, or a load error naming the component for undeclared / duplicated slots and missing files."},
+    "C12": {"engine": "tla-data", "technique": T_REPLAY,
+            "text": "TLC enumerates Go values by type-directed recursion (spec/MC_Data.tla) and every access path into the converted value; the harness builds each value with reflect (StructOf, typed slices, pointers), renders the path through EvaluateString and EnvFromMap, requires the model's printed form (or 'not reachable' / 'unsupported' errors) and that the caller's data is DeepEqual to a fresh copy afterwards."},
+    "C14": {"engine": "tla-link", "technique": "explicit TLA+ loader machine model-checked for Deterministic; TLC-generated order-sensitive cases run repeatedly on the real code",
+            "text": "The loader machine picks files in any order under the as-coded switch; TLC checks on the intended design that the outcome is a function of the tree (Deterministic) for every tree of the family and every order. TLC also enumerates the order-sensitive programs and trees, and the harness runs each N times in one process and in several fresh processes (Go randomises map order per iteration, which explores the model's choices): all results must be byte-identical."},
+    "C18": {"engine": "tla-link", "technique": T_REPLAY,
+            "text": "TLC enumerates trees over a file-name alphabet built to separate 'ends in the extension' from 'contains the extension' x directory spellings x extensions with the names the specification assigns, and every single-file fault of a valid page+layout+component tree (deleted, garbage, empty, dangling symlink, directory, truncation at every chunk boundary); the loader machine is model-checked for AllOrNothing. The harness loads each tree: registered names must equal the model's set, layouts and unknown names are not renderable, a fault gives (nil, error identifying the file), EvaluateFile equals EvaluateString."},
     "C09": {"engine": "tla-expr", "technique": T_REPLAY,
             "text": "The specification's operators are total (value, demanded error, or unspecified): TLC evaluates the complete kind-confusion matrix (11 binary operators x 16 x 16 value kinds, prefix/postfix/index/member/ternary forms over every kind, raw templates with absent loop clauses and misplaced directives) and the harness replays every case under recover() and a watchdog: no panic, no hang, the predicted value or error where a property fixes it, and a line >= 1 on every evaluation error. Built-in argument domains are covered by C11's families and nil pointers / unsupported data by C12's."},
     "C10": {"engine": "tla-text", "technique": T_REPLAY,
